@@ -514,8 +514,20 @@ GuardsRet(st, e) ==
      ELSE IF st.cur.op \in {"close", "cancel", "closeprov"} THEN GuardsRetClose(st, e)
      ELSE {})
 
+\* ---- quiescent observation (goroutines, reachability after GC, context state) ---------------
+OpenScopesWithWatcher(st) == {s \in ScopeNames(st) : s # "root" /\ st.scopes[s].open}
+GuardsObs(st, e) ==
+    {G("no_goroutine_left_behind", {"C14"}, e.goroutines <= Cardinality(OpenScopesWithWatcher(st)), NONE),
+     G("closed_scopes_unreachable", {"C14"}, \A s \in Range(e.alive_scopes) : s \in ScopeNames(st) => (st.scopes[s].open \/ (s = "root" /\ st.phase = "built")), NONE),
+     G("instances_of_closed_scopes_unreachable", {"C14"}, \A i \in Range(e.alive_insts) \cap InstIds(st) :
+          IF st.inst[i].owner = "prov" THEN st.phase = "built"
+          ELSE (st.inst[i].owner \in ScopeNames(st) /\ st.scopes[st.inst[i].owner].open), NONE),
+     G("closed_scope_context_cancelled", {"C14"}, \A s \in (ScopeNames(st) \ {"root"}) \cap DOMAIN e.ctx :
+          ~st.scopes[s].open => e.ctx[s] = "canceled", NONE)}
+
 Guards(st, e) ==
     IF st.skip THEN {}
+    ELSE IF e.ev = "obs" /\ ~st.taint THEN GuardsObs(st, e)
     ELSE IF e.ev = "ret" THEN GuardsRet(st, e)
     ELSE IF st.taint THEN {}
     ELSE IF e.ev = "ctor" THEN GuardsCtor(st, e)
